@@ -18,7 +18,7 @@ from .values import ListV, RecV, Obj, OptV, is_z3
 
 HERE = os.path.dirname(os.path.dirname(os.path.abspath(__file__)))
 VENV_PY = "/venv/bin/python"
-EVID = os.path.join(HERE, "evidence")
+EVID = os.environ.get("VERIF_EVIDENCE_DIR") or os.path.join(HERE, "evidence")
 REPLAY_DIR = os.path.join(EVID, "replay")
 
 
